@@ -4,8 +4,12 @@ L9 Files — `rpyc/utils/classic.py`: `upload`, `upload_file`, `upload_dir`, `do
 `download_dir`.
 
 `download*` is `upload*` with the roles of the two sides swapped (the local calls `open`, `os.listdir`,
-`os.path.isdir|isfile|join`, `os.makedirs` become remote calls and vice versa): one model serves both; the
-correspondence runs the two real code paths against it separately.
+`os.path.isdir|isfile|join`, `os.makedirs` become remote calls and vice versa).  The two are transcribed
+separately (`upload…` / `download…`) and proved equal (`download_eq_upload`); the correspondence runs the
+two real code paths separately.
+
+Names are lists of code points (`Name`): a file name that is not valid UTF-8 reaches Python as a `str` with
+lone surrogates (`os.fsdecode`, surrogateescape) and travels through brine as such.
 
 The filesystem is the trusted part: a path is a regular file with contents, a directory with named
 entries (in the order `os.listdir` returned them), or something else (`other`: neither `isdir` nor
@@ -30,6 +34,30 @@ def copyFile (chunk : Nat) (src : Bytes) : Bytes := copyLoop chunk (src.length +
 
 /-! ### trees -/
 
+/-- a file name as Python has it: code points, lone surrogates (undecodable bytes) included -/
+abbrev Name := List Nat
+
+/-- the code points of a literal (for examples) -/
+def nm (s : String) : Name := s.toList.map Char.toNat
+
+/-- the errors of the transfer functions: `ValueError` of `upload`/`download` themselves, and the `OSError`s
+of the calls they make when a file is where a directory is needed or the reverse -/
+inductive FErr where
+  | valueError
+  /-- `open(path, "wb")` on a directory -/
+  | isADirectoryError
+  /-- `os.makedirs(path)` on a regular file -/
+  | fileExistsError
+  /-- the destination is a fifo / device / dangling link: what the real calls do there is not modelled -/
+  | notModelled
+  deriving DecidableEq, Repr
+
+def FErr.name : FErr → String
+  | .valueError => "ValueError"
+  | .isADirectoryError => "IsADirectoryError"
+  | .fileExistsError => "FileExistsError"
+  | .notModelled => "NOT-MODELLED"
+
 mutual
 inductive Tree where
   | file (b : Bytes)
@@ -38,16 +66,28 @@ inductive Tree where
   deriving DecidableEq
 inductive Entries where
   | nil
-  | cons (name : String) (t : Tree) (rest : Entries)
+  | cons (name : Name) (t : Tree) (rest : Entries)
   deriving DecidableEq
 end
 
 /-- `filter`: `None`, or a predicate on the entry's *name* (`filter(fn)` with `fn` from `os.listdir`,
 not the joined path) -/
-abbrev Filter := Option (String → Bool)
+abbrev Filter := Option (Name → Bool)
+
+/-- what the caller passes as `filter`: `None`, or a callable with its truth value.  The code tests
+`not filter or filter(fn)`: a callable object that is *falsy* (defines `__bool__`/`__len__`) is treated like
+`None`. -/
+structure FilterArg where
+  truthy : Bool
+  pred : Name → Bool
+
+/-- the filter the code actually applies -/
+def effective : Option FilterArg → Filter
+  | none => none
+  | some a => if a.truthy then some a.pred else none
 
 /-- `not filter or filter(fn)` -/
-def passes (f : Filter) (name : String) : Bool :=
+def passes (f : Filter) (name : Name) : Bool :=
   match f with
   | none => true
   | some p => p name
@@ -56,7 +96,7 @@ mutual
 /-- `upload(conn, localpath, remotepath, filter, ignore_invalid, chunk_size)`: what exists at the
 destination path afterwards (`none`: nothing was created), or the error raised.
 `isdir` → `upload_dir`; `isfile` → `upload_file`; otherwise `ValueError` unless `ignore_invalid`. -/
-def upload (chunk : Nat) (f : Filter) (ignoreInvalid : Bool) : Tree → Except Err (Option Tree)
+def upload (chunk : Nat) (f : Filter) (ignoreInvalid : Bool) : Tree → Except FErr (Option Tree)
   | .dir es =>
     match uploadDir chunk f es with
     | .ok es' => .ok (some (.dir es'))
@@ -65,7 +105,7 @@ def upload (chunk : Nat) (f : Filter) (ignoreInvalid : Bool) : Tree → Except E
   | .other => if ignoreInvalid then .ok none else .error .valueError
 /-- `upload_dir`: make the directory, then for every listed name that passes the filter
 `upload(join(local, fn), join(remote, fn), filter=filter, ignore_invalid=True, chunk_size=chunk_size)` -/
-def uploadDir (chunk : Nat) (f : Filter) : Entries → Except Err Entries
+def uploadDir (chunk : Nat) (f : Filter) : Entries → Except FErr Entries
   | .nil => .ok .nil
   | .cons n t rest =>
     if passes f n then
@@ -84,12 +124,12 @@ end
 /-! ### transfers onto a destination that already exists -/
 
 /-- the entry called `n`, if any (`os.path.isdir/isfile(join(dst, n))`) -/
-def Entries.find : Entries → String → Option Tree
+def Entries.find : Entries → Name → Option Tree
   | .nil, _ => none
   | .cons m t rest, n => if m = n then some t else rest.find n
 
 /-- create or replace the entry called `n` -/
-def Entries.set : Entries → String → Tree → Entries
+def Entries.set : Entries → Name → Tree → Entries
   | .nil, n, t => .cons n t .nil
   | .cons m d rest, n, t => if m = n then .cons m t rest else .cons m d (rest.set n t)
 
@@ -97,16 +137,17 @@ def Entries.append : Entries → Entries → Entries
   | .nil, b => b
   | .cons n t rest, b => .cons n t (rest.append b)
 
-def Entries.names : Entries → List String
+def Entries.names : Entries → List Name
   | .nil => []
   | .cons n _ rest => n :: rest.names
 
 mutual
 /-- `upload` when the destination path may already exist (`dst`): a regular file is opened with `"wb"`, i.e.
 truncated and rewritten whatever it held; an existing directory is kept (`makedirs` only `if not isdir`) and
-each transferred entry is created or overwritten inside it, other entries stay; a file where a directory is
-needed or the reverse is an `OSError` of the real calls and is not modelled. -/
-def uploadOver (chunk : Nat) (f : Filter) (ignoreInvalid : Bool) : Tree → Option Tree → Except Err (Option Tree)
+each transferred entry is created or overwritten inside it, other entries stay; a regular file where a
+directory is needed makes `os.makedirs` raise `FileExistsError`, a directory where a file is to be written makes
+`open(…, "wb")` raise `IsADirectoryError` (the transfer stops there, what was done before stays). -/
+def uploadOver (chunk : Nat) (f : Filter) (ignoreInvalid : Bool) : Tree → Option Tree → Except FErr (Option Tree)
   | .dir es, dst =>
     match dst with
     | none =>
@@ -117,15 +158,17 @@ def uploadOver (chunk : Nat) (f : Filter) (ignoreInvalid : Bool) : Tree → Opti
       match uploadDirOver chunk f es ds with
       | .ok es' => .ok (some (.dir es'))
       | .error e => .error e
-    | some _ => .error .notModelled
+    | some (.file _) => .error .fileExistsError
+    | some .other => .error .notModelled
   | .file b, dst =>
     match dst with
     | none => .ok (some (.file (copyFile chunk b)))
     | some (.file _) => .ok (some (.file (copyFile chunk b)))
-    | some _ => .error .notModelled
+    | some (.dir _) => .error .isADirectoryError
+    | some .other => .error .notModelled
   | .other, dst => if ignoreInvalid then .ok dst else .error .valueError
 /-- `upload_dir` into the directory whose entries are `ds` -/
-def uploadDirOver (chunk : Nat) (f : Filter) : Entries → Entries → Except Err Entries
+def uploadDirOver (chunk : Nat) (f : Filter) : Entries → Entries → Except FErr Entries
   | .nil, ds => .ok ds
   | .cons n t rest, ds =>
     if passes f n then
@@ -160,9 +203,45 @@ def distinctEntries : Entries → Bool
   | .cons n t rest => !rest.names.contains n && distinctNames t && distinctEntries rest
 end
 
-/-- `download` is the same procedure with the two sides swapped -/
-def download (chunk : Nat) (f : Filter) (ignoreInvalid : Bool) (t : Tree) : Except Err (Option Tree) :=
-  upload chunk f ignoreInvalid t
+/-! ### `download`, transcribed on its own -/
+
+/-- `download_file`: `while True: buf = rf.read(chunk_size); if not buf: break; lf.write(buf)` -/
+def downloadLoop (chunk : Nat) : Nat → Bytes → Bytes → Bytes
+  | 0, _, lf => lf
+  | f + 1, rf, lf =>
+    if (rf.take chunk).isEmpty then lf
+    else downloadLoop chunk f (rf.drop chunk) (lf ++ rf.take chunk)
+
+def downloadFile (chunk : Nat) (remote : Bytes) : Bytes := downloadLoop chunk (remote.length + 1) remote []
+
+mutual
+/-- `download(conn, remotepath, localpath, filter, ignore_invalid, chunk_size)`:
+`conn.modules.os.path.isdir(remotepath)` → `download_dir`; `…isfile(remotepath)` → `download_file`; otherwise
+`ValueError` unless `ignore_invalid` -/
+def download (chunk : Nat) (f : Filter) (ignoreInvalid : Bool) : Tree → Except FErr (Option Tree)
+  | .dir es =>
+    match downloadDir chunk f es with
+    | .ok es' => .ok (some (.dir es'))
+    | .error e => .error e
+  | .file b => .ok (some (.file (downloadFile chunk b)))
+  | .other => if ignoreInvalid then .ok none else .error .valueError
+/-- `download_dir`: local `makedirs`, then for every name of the *remote* listing that passes the filter
+`download(join(remote, fn), join(local, fn), filter=filter, ignore_invalid=True, chunk_size=chunk_size)` -/
+def downloadDir (chunk : Nat) (f : Filter) : Entries → Except FErr Entries
+  | .nil => .ok .nil
+  | .cons n t rest =>
+    if passes f n then
+      match download chunk f true t with
+      | .error e => .error e
+      | .ok r =>
+        match downloadDir chunk f rest with
+        | .error e => .error e
+        | .ok rest' =>
+          match r with
+          | some t' => .ok (.cons n t' rest')
+          | none => .ok rest'
+    else downloadDir chunk f rest
+end
 
 /-! ### the specification side: pruning, and trees as lists of paths -/
 
@@ -183,14 +262,42 @@ def pruneEntries (f : Filter) : Entries → Entries
     else pruneEntries f rest
 end
 
+mutual
+/-- the specification of a transfer onto an existing destination: the (already pruned) source tree laid over
+what is there — files replace files, directories are merged entry by entry, entries only the destination has
+stay; a file over a directory or the reverse is the `OSError` of the call that meets it -/
+def overlay : Tree → Option Tree → Except FErr Tree
+  | .file b, none => .ok (.file b)
+  | .file b, some (.file _) => .ok (.file b)
+  | .file _, some (.dir _) => .error .isADirectoryError
+  | .file _, some .other => .error .notModelled
+  | .dir es, none =>
+    match overlayEntries es .nil with
+    | .ok es' => .ok (.dir es')
+    | .error e => .error e
+  | .dir es, some (.dir ds) =>
+    match overlayEntries es ds with
+    | .ok es' => .ok (.dir es')
+    | .error e => .error e
+  | .dir _, some (.file _) => .error .fileExistsError
+  | .dir _, some .other => .error .notModelled
+  | .other, _ => .error .notModelled
+def overlayEntries : Entries → Entries → Except FErr Entries
+  | .nil, ds => .ok ds
+  | .cons n t rest, ds =>
+    match overlay t (ds.find n) with
+    | .error e => .error e
+    | .ok t' => overlayEntries rest (ds.set n t')
+end
+
 /-- what a tree contains, path by path (relative names, outermost first) -/
 inductive Item where
-  | fileAt (path : List String) (b : Bytes)
-  | dirAt (path : List String)
-  | otherAt (path : List String)
+  | fileAt (path : List Name) (b : Bytes)
+  | dirAt (path : List Name)
+  | otherAt (path : List Name)
   deriving DecidableEq, Repr
 
-def Item.path : Item → List String
+def Item.path : Item → List Name
   | .fileAt p _ => p
   | .dirAt p => p
   | .otherAt p => p
@@ -201,11 +308,11 @@ def Item.isOther : Item → Bool
 
 mutual
 /-- every file, directory (empty ones too) and other object below `pre`, in listing order -/
-def items (pre : List String) : Tree → List Item
+def items (pre : List Name) : Tree → List Item
   | .dir es => .dirAt pre :: itemsOf pre es
   | .file b => [.fileAt pre b]
   | .other => [.otherAt pre]
-def itemsOf (pre : List String) : Entries → List Item
+def itemsOf (pre : List Name) : Entries → List Item
   | .nil => []
   | .cons n t rest => items (pre ++ [n]) t ++ itemsOf pre rest
 end
